@@ -229,7 +229,21 @@ fn check_truncate(ctx: &Ctx, c: &Case) -> PResult {
         }
         ctx.add_evals(1);
         ctx.label(&format!("adversary: {}", name.split(' ').take(3).collect::<Vec<_>>().join(" ")));
-        if g.eval(&a).is_empty() && a[start] != want {
+        let rejected = !g.eval(&a).is_empty();
+        if rejected {
+            let inp = g.handle_wit(2);
+            if let Some(done) = gadget::complete_candidate(&g, &a, &[inp], |y| y[start] != want) {
+                let real = g.prove_assignment(&done, c.seed)?;
+                return Err(Fail::new(
+                    "truncate-alias-accepted",
+                    format!(
+                        "component_truncate::<{n}>({}): assignment '{name}' completed by re-solving the derived wires satisfies every row with returned value {} != {} (real prover+verifier: {real:?})",
+                        fe_short(&x), fe_short(&done[start]), fe_short(&want)
+                    ),
+                ));
+            }
+        }
+        if !rejected && a[start] != want {
             let real = g.prove_assignment(&a, c.seed)?;
             return Err(Fail::new(
                 "truncate-alias-accepted",
@@ -309,8 +323,9 @@ fn check_decomposition(ctx: &Ctx, c: &Case) -> PResult {
         }
     }
     // model-free adversary: one bit flipped (or the input out of range), input
-    // kept, running sums re-solved row by row
-    {
+    // kept, running sums re-solved row by row (N <= 254: above that the
+    // recorded modulus alias is a second bit vector by construction)
+    if n <= 254 {
         let inp = g.handle_wit(2);
         let i = (c.small as usize) % n;
         let bw = g.handle_wit(3 + i);
